@@ -1,5 +1,12 @@
 # per-property configuration of bin/check
 PROPS = {
+ "C01": {
+  "kind_tokens": 3,
+  "rule": "for each of the 23 field packages: every unary op on the boundary lattice (0,1,2,q-1,q-2,(q±1)/2,R mod q ±1,2^(w·i)±1,2^(w·i-1), q with one limb perturbed/saturated/zeroed, random), binary ops on lattice×lattice (strided in quick) + random pairs, exponents {0,±1,±2,±(q-1),±q,q-2,2^63,2^64±,2^300,random up to 3000 bits, negative}, squares/non-squares, batch inversion and vector ops of every length 0..L with zeros; raw Montgomery limbs compared; distinct = distinct op lines",
+  "trusted": ["tools/harness/field.go (raw-limb adapters via unsafe, generic over the 23 packages)", "tools/goslp constants extraction (Gen/Fields.lean; C01_params_ok re-checks every extracted constant block by decide +kernel)",
+              "modelled not verified: the limb-level Go/assembly code of each operation is tied to the value-level model by correspondence only; Pornin inversion loop termination; primality of the moduli is a hypothesis [Fact q.Prime] of the theorems that need it"],
+  "assumptions": ["operands are reduced (raw value < q), as the property states", "q prime where inverse/exp/sqrt/legendre theorems are used"],
+ },
  "C15": {
   "shrink_header": 3, "kind_tokens": 1,
   "rule": "bounded-exhaustive histories over {Bind(name|unknown), Compute(name|unknown), caller-side mutation of a slice handed in/out} for 1..k names, then seeded random histories of length ≤ 24; distinct = distinct op lines",
